@@ -240,7 +240,7 @@ class C04(Prop):
                 "cfg": {"prefix": E(prefix), "unicode": unicode_ok, "encoding": encoding, "serde": serde}}
         if rng.random() < 0.25:
             # every cut position in the last bytes of one single-key reply (value end, CR|LF, END line)
-            singles = [i for i, st in enumerate(steps) if st["m"] in ("get", "gets", "gat", "gats", "__getitem__")]
+            singles = [i for i, st in enumerate(steps) if st.get("m") in ("get", "gets", "gat", "gats", "__getitem__")]
             if singles:
                 res = engine.execute(copy.deepcopy(base), ())
                 i = rng.choice(singles)
